@@ -310,6 +310,7 @@ func readEnum(tr *tokenReader, bitflags bool) (Enum, error) {
 			nextDeprecatedMessage = ""
 			nextIsDeprecated = false
 			nextCommentLines = []string{}
+			skipEndOfLineComments(tr)
 
 		case tokenKindOpenSquare:
 			if nextIsDeprecated {
